@@ -45,7 +45,13 @@ where
             };
         }
         let f_lower = polynomial.eval_univariate(lower_bound)?;
-        let test = f_lower * polynomial.eval_univariate(x_curr)?;
+        let f_curr = polynomial.eval_univariate(x_curr)?;
+        // Only the sign of the product matters, and the product of two tiny values underflows to zero
+        let test = if f_lower == 0 as f64 {
+            0 as f64
+        } else {
+            f_lower.signum() * f_curr
+        };
         if test < 0 as f64 {
             upper_bound = x_curr;
         } else if test > 0 as f64 {
